@@ -46,6 +46,12 @@ CHECKS = {
  "C09": dict(cat="exploration", tech="Go race detector (-race build of the worker, reports read from the race log, only those with a frame of the code under test count) over concurrent stanzas, plus per-operation comparison with sequential results",
    text="G goroutines x R operations (renders of the same and other templates, JS generation, compilation of an independent bundle, parse.Expr+EvalExpr) share one Tofu, data maps, $ij and message bundle under GOMAXPROCS 2/4/16 with hook-driven scheduler yields; the race detector must report nothing inside the code under test and every concurrent result must equal the sequential one. Evidence counts distinct interleaving signatures and overlapping operations; a deliberately racy probe in the harness proves the detector and its log are live.",
    note="Only the interleavings produced are explored; races on paths the workload does not execute are invisible.", ref="DESIGN.md §6 C09"),
+ "C10": dict(cat="exploration", tech="runtime monitoring: metamorphic monitors (stability across compilations and processes, invariance under context, sensitivity to content) plus a reference re-implementation of the official fingerprint and placeholder naming, self-tested against official ids",
+   text="Seeded message bodies (arbitrary text around the 12-byte hash blocks, placeholders over 10 expression shapes, html tags, colliding base names, plurals, meanings): ids and placeholder strings must be identical over 20-100 compilations and in another process, unchanged by description/siblings/surrounding code, changed by any change of text, meaning, placeholder name, part order or plural structure, and equal to the official algorithm where that is unambiguous.",
+   note="Reference fingerprint in ref/msgid.go passes the 10 official ids quoted in the repository's tests at start-up (else the run is inconclusive). Messages with two or more calls are not compared with the official naming.", ref="DESIGN.md §6 C10"),
+ "C13": dict(cat="exploration", tech="runtime monitoring: equality monitor over the whole observable tuple (accept/reject, error text, ids, rendered output, SHA-1 of JS per file and formatter) across repetitions, processes and all file-order permutations",
+   text="For seeded bundles plus an extras file leaning on everything Go maps touch (ES6 imports, map literals in error messages, colliding placeholder names), one third with exactly one injected compile error: the observable tuple must be identical over 20-60 in-process repetitions (map iteration re-randomised each time), in another process, and under every permutation of file insertion order.",
+   note="Render error text embeds stack traces and is compared by success/failure only.", ref="DESIGN.md §6 C13"),
 }
 PENDING = "check not built yet (planned with runtime monitoring, see DESIGN.md §6); not claimed"
 props = [json.loads(l)['id'] for l in open('/verif/properties.jsonl')]
